@@ -168,6 +168,7 @@ class Ctx:
 
     def nontrivial(self, key):
         with self.lock:
+            self.counters["nontrivial_items_judged"] = self.counters.get("nontrivial_items_judged", 0) + 1
             self.distinct.add(hash(key))
 
     def sample(self, obj, tag="case", per_tag=2):
@@ -262,7 +263,9 @@ def finish(ctx, mod, requirements=True):
             new.append(v)
     # keys with only counted (not stored) witnesses still have a stored first witness
     wall = time.time() - ctx.t0
-    evaluations = ctx.counters.get("cases", 0) or ctx.cases_run
+    # evaluations = judged items: workload cases, or (when one case judges many items, e.g. every comparison of a grid or
+    # every acceptance step of a run) the number of items handed to nontrivial(), whichever is larger
+    evaluations = max(ctx.counters.get("cases", 0) or ctx.cases_run, ctx.counters.get("nontrivial_items_judged", 0))
     cov = {
         "evaluations": int(evaluations),
         "distinct_nontrivial": len(ctx.distinct),
